@@ -25,6 +25,9 @@ N(i) == VNum(NumTable[i].sp)
 E(k, x) == Entry(k, x)
 KA == <<97>>  KB == <<98>>  KAA == <<97, 97>>  KEmpty == <<>>
 KE9 == <<233>>  KE000 == <<57344>>  KFFFF == <<65535>>  K10000 == <<65536>>  K10FFFF == <<1114111>>
+\* supplementary characters sharing their high surrogate (D83D), followed by tails that order the other way; and the same
+\* with characters whose first units differ
+KGrinB == <<128512, 98>>  KGrinA2 == <<128513, 97>>  KGrin == <<128512>>  KGrinE000 == <<128512, 57344>>  KGrin2FFFF == <<128513, 65535>>
 KMix == <<97, 65536>>  KMix2 == <<97, 65535>>  KCtl == <<10>>  KQuote == <<34>>
 
 Bases == {
@@ -40,6 +43,8 @@ Bases == {
   VObj(<<E(KB, N(40)), E(KA, N(41)), E(KEmpty, N(12)), E(KE000, N(13))>>),
   VObj(<<E(KA, N(2)), E(KB, N(17)), E(KAA, N(18))>>),
   VObj(<<E(KA, N(4)), E(KB, N(6)), E(KAA, N(8)), E(KEmpty, N(20))>>),
+  VObj(<<E(KGrinB, N(1)), E(KGrinA2, N(2)), E(KGrin, N(3))>>),
+  VObj(<<E(KGrin2FFFF, N(5)), E(KGrinE000, N(7)), E(K10000, N(9)), E(KFFFF, N(10))>>),
   VObj(<<>>), VArr(<<>>), N(1)
 }
 
